@@ -52,9 +52,9 @@ Definition parse_outcome (v : version) (k : kind) : outcome :=
 Record tree_obs := { o_file : str; o_kind : kind; o_cwd : str; o_arg : str; o_got : outcome }.
 
 Record tree_case := {
-  t_manifests : vmap;       (* directory (relative, "" = root) -> version *)
+  t_manifests : list (str * option version);   (* directory (relative, "" = root) -> version, if any *)
   t_project : option version;
-  t_roots : vmap;
+  t_roots : list (str * option version);
   t_vmap : vmap;            (* what AllRegoVersions returned *)
   t_obs : list tree_obs }.
 
@@ -67,8 +67,8 @@ Definition manifest_key (d : str) : str :=
   if str_eqb k [DOT] then [] else k.
 
 Definition model_vmap (t : tree_case) : vmap :=
-  all_rego_versions (map (fun kv => (manifest_key (fst kv), snd kv)) (t_manifests t))
-                    (t_project t) (t_roots t).
+  all_rego_versions_opt (map (fun kv => (manifest_key (fst kv), snd kv)) (t_manifests t))
+                        (t_project t) (t_roots t).
 
 Definition vmap_sub (a b : vmap) : bool :=
   forallb (fun kv => match assoc_get b (fst kv) with
@@ -101,10 +101,10 @@ Definition src_step (file : str) (is_cfg : bool) (acc : option (nat * bool * ver
   else acc.
 
 Definition spec_tree_version (t : tree_case) (file : str) : version :=
-  let a0 := fold_left (src_step file false) (t_manifests t) None in
+  let a0 := fold_left (src_step file false) (present (t_manifests t)) None in
   let a1 := match t_project t with
             | Some v => src_step file true a0 ([], v) | None => a0 end in
-  match fold_left (src_step file true) (t_roots t) a1 with
+  match fold_left (src_step file true) (present (t_roots t)) a1 with
   | Some (_, _, v) => v
   | None => VUndef
   end.
